@@ -511,6 +511,11 @@ func writableDate(t time.Time) time.Time {
 	if ok && (strings.HasPrefix(name, "GMT") && name != "GMT") {
 		ok = false
 	}
+	if ok && strings.HasPrefix(name, "UTC") && (name != "UTC" || offset != 0) {
+		// time.Parse gives "UTC" the offset zero whatever the numeric offset
+		// says, and does not accept longer abbreviations which start with it
+		ok = false
+	}
 	if !ok {
 		return t.In(time.FixedZone("", offset))
 	}
